@@ -74,6 +74,13 @@ def classify(case, obs):
 
 def shrink(case):
     ev = case["events"]
+    n = len(ev)
+    for parts in (2, 4, 8):  # delta debugging: drop whole chunks first
+        if n >= parts * 2:
+            size = n // parts
+            for i in range(parts):
+                c = dict(case); c["events"] = ev[:i * size] + ev[(i + 1) * size:]
+                yield c
     for i in range(len(ev)):
         c = dict(case); c["events"] = ev[:i] + ev[i + 1:]
         if i + 1 < len(ev):  # keep elapsed time: give the removed advance to the next event
